@@ -93,8 +93,14 @@ Qed.
 (* unbounded: every other method value is rejected, for every year *)
 Lemma easter_bad_method_lemma : forall y m, m < 1 \/ m > 3 -> easter_gen y m = None.
 Proof.
-  intros y m H. unfold easter_gen.
-  destruct (1 <=? m) eqn:E1; destruct (m <=? 3) eqn:E2; cbn [andb negb]; try reflexivity; lia.
+  (* robust to the spelling of the validity test (range test or membership in the three constants):
+     only the guard of the first `if ... then None` is analysed *)
+  intros y m H. unfold easter_gen, EASTER_JULIAN, EASTER_ORTHODOX, EASTER_WESTERN.
+  match goal with |- (if ?c then None else _) = None => assert (c = true) as -> end; [|reflexivity].
+  repeat match goal with
+         | |- context [?a <=? ?b] => destruct (Z.leb_spec a b)
+         | |- context [?a =? ?b] => destruct (Z.eqb_spec a b)
+         end; cbn [andb orb negb]; try reflexivity; lia.
 Qed.
 
 (* the generated function agrees with the executable spec on the whole documented domain *)
